@@ -9,6 +9,8 @@ constant space, and likewise for every singular local integral.  This file prove
 that turn these local identities into the statements of the property.
 -/
 import BemppVerif.Gen.AsmMatchDefs
+import BemppVerif.Lemmas.Maxwell
+import Mathlib.Data.Complex.Basic
 import Mathlib.Tactic.Ring
 import Mathlib.Tactic.LinearCombination
 import Mathlib.Tactic.FieldSimp
@@ -78,5 +80,47 @@ example : curlS (K := ℚ) (fun _ c => if c = 2 then 1 else 0) (fun _ c a => if 
     + curlS (K := ℚ) (fun _ c => if c = 2 then 1 else 0) (fun _ c a => if c = a then 1 else 0) (fun _ => 1) 0 1 1
     + curlS (K := ℚ) (fun _ c => if c = 2 then 1 else 0) (fun _ c a => if c = a then 1 else 0) (fun _ => 1) 0 2 1 = 0 := by
   constructor <;> norm_num [curlS, cross, surfGrad, refGrad]
+
+/-! ### Maxwell: the pair arithmetic of the generated theorems is complex arithmetic
+
+The generated Maxwell theorems (`BemppVerif.AsmMatch.mx_*`) are equations in `CP K` (pairs with the tracer's complex
+arithmetic) over an arbitrary field.  For `K = ℝ` the map `(re, im) ↦ re + i·im` commutes with every operation that occurs
+in them, so each such equation is an equation between complex numbers; `CP.ik kr ki` is `i·k` for `k = kr + i·ki`. -/
+
+/-- `(re, im) ↦ re + i im` -/
+def cpToComplex (z : CP ℝ) : ℂ := ⟨z.re, z.im⟩
+
+theorem cpToComplex_injective : Function.Injective cpToComplex := by
+  intro a b h
+  cases a; cases b
+  simp only [cpToComplex, Complex.mk.injEq] at h
+  simp [h.1, h.2]
+
+theorem cpToComplex_ofK (x : ℝ) : cpToComplex (CP.ofK x) = (x : ℂ) := by
+  apply Complex.ext <;> simp [cpToComplex, CP.ofK]
+
+theorem cpToComplex_add (a b : CP ℝ) : cpToComplex (a + b) = cpToComplex a + cpToComplex b := by
+  apply Complex.ext <;> simp [cpToComplex, CP.add_re, CP.add_im]
+
+theorem cpToComplex_sub (a b : CP ℝ) : cpToComplex (a - b) = cpToComplex a - cpToComplex b := by
+  apply Complex.ext <;> simp [cpToComplex, CP.sub_re, CP.sub_im]
+
+theorem cpToComplex_neg (a : CP ℝ) : cpToComplex (-a) = -cpToComplex a := by
+  apply Complex.ext <;> simp [cpToComplex, CP.neg_re, CP.neg_im]
+
+theorem cpToComplex_mul (a b : CP ℝ) : cpToComplex (a * b) = cpToComplex a * cpToComplex b := by
+  apply Complex.ext <;> simp [cpToComplex, CP.mul_re, CP.mul_im]
+
+theorem cpToComplex_div (a b : CP ℝ) : cpToComplex (a / b) = cpToComplex a / cpToComplex b := by
+  apply Complex.ext <;>
+    simp [cpToComplex, CP.div_re, CP.div_im, Complex.div_re, Complex.div_im, Complex.normSq_apply] <;> ring
+
+theorem cpToComplex_divK (a : CP ℝ) (x : ℝ) : cpToComplex (CP.divK a x) = cpToComplex a / (x : ℂ) := by
+  apply Complex.ext <;>
+    simp [cpToComplex, CP.divK_re, CP.divK_im, Complex.div_ofReal_re, Complex.div_ofReal_im]
+
+/-- `CP.ik kr ki` is `i k` with `k = kr + i ki` -/
+theorem cpToComplex_ik (kr ki : ℝ) : cpToComplex (CP.ik kr ki) = Complex.I * (⟨kr, ki⟩ : ℂ) := by
+  apply Complex.ext <;> simp [cpToComplex, CP.ik]
 
 end BemppVerif.C06
